@@ -46,11 +46,53 @@ def _call(a):
         return repr(ex)
 
 
+def suite_multiplicity_events(wd, tabs, dic):
+    """multiplicity calls made while the repository's own tests run (harness/suite_plugin.py): each becomes a case for
+    Multiplicity.tla, the recorded result is then compared with the exact orbit size.  Coordinates with up to 5 decimals are exact
+    over N = 2 400 000."""
+    import json
+    import os
+    import subprocess
+    import sys
+    if not os.path.isdir(os.path.join(common.REPO, "test")):
+        return []
+    out = os.path.join(wd, "suite_trace.json")
+    env = dict(os.environ, XFAB_SUITE_TRACE=out, XFAB_SUITE_LOOKUPS="1",
+               PYTHONPATH=os.pathsep.join([os.path.dirname(os.path.abspath(__file__)), common.REPO]))
+    subprocess.run([sys.executable, "-m", "pytest", "-q", "-p", "no:cacheprovider", "-p", "suite_plugin", "test/test_structure.py"],
+                   cwd=common.REPO, env=env, stdout=subprocess.PIPE, stderr=subprocess.STDOUT, timeout=1200)
+    if not os.path.exists(out):
+        return []
+    ev = [e for e in json.load(open(out)) if e["ev"] == "multiplicity"]
+    os.remove(out)
+    keyno = {d["text"]: d["no"] for d in dic}
+    res = []
+    N = 2400000
+    for e in ev:
+        if e["sgname"] is not None:
+            k = "".join(e["sgname"].split()).lower()
+            if k not in keyno:
+                continue
+            no = keyno[k]
+            setting = "rhombohedral" if (k[0] == "r" and k[-1] == "r") else "standard"
+        else:
+            no, setting = e["sgno"], (e["choice0"] if e["choice0"] == "rhombohedral" else "standard")
+        ti = [i for i, t in enumerate(tabs) if t["no"] == no and t["setting"] == setting]
+        if not ti:
+            ti = [i for i, t in enumerate(tabs) if t["no"] == no and t["setting"] == "standard"]
+        p = [x * N for x in e["pos"]]
+        if any(abs(q - round(q)) > 1e-6 for q in p):
+            continue                     # not exactly representable on the lattice: no exact oracle
+        res.append((ti[0] + 1, [int(round(q)) % N for q in p], N, e))
+    return res
+
+
 def run(tier, seed):
     warnings.simplefilter("ignore")
     v = common.Verdict("C15", tier, seed)
     wd = common.workdir("C15")
     tabs, dic = export.write_tables_module(wd)
+    suite = suite_multiplicity_events(wd, tabs, dic)
     rng = random.Random(seed)
     grid = [([a, b, c], 24) for a in GRID for b in GRID for c in GRID]
     fam = families()
@@ -60,9 +102,10 @@ def run(tier, seed):
         for ti in range(1, nt + 1):
             pts = rng.sample(grid, 60) + fam
             cases += [[ti, [p, n]] for (p, n) in pts]
+        cases += [[ti, [p, n]] for (ti, p, n, e) in suite]
         defs = {"Cases": common.TlaSet(cases), "TableSel": common.TlaSet([]), "Points": common.TlaSet([])}
     else:
-        defs = {"Cases": common.TlaSet([]), "TableSel": common.TlaSet(list(range(1, nt + 1))),
+        defs = {"Cases": common.TlaSet([[ti, [p, n]] for (ti, p, n, e) in suite]), "TableSel": common.TlaSet(list(range(1, nt + 1))),
                 "Points": common.TlaSet([[p, n] for (p, n) in grid + fam])}
     common.write_data_module(wd, "C15Cases", defs)
     r = common.run_tlc("Multiplicity", "MC_Multiplicity.cfg", wd, timeout=3000)
@@ -102,8 +145,20 @@ def run(tier, seed):
             v.violation("multiplicity(%s, Sg%d %s) = %s (by number), %s (by name %r); orbit has %d points" %
                         (pos, t["no"], t["setting"], got_no, got_nm, t["name_text"], x["m"]),
                         dict(sample, got_by_number=got_no, got_by_name=got_nm, float_pos=pos))
-    cov = {"states": r.distinct, "transitions": r.generated, "traces_validated_against_impl": len(seen),
-           "exhaustive": tier == "thorough", "special_positions": sum(1 for k in seen if True),
+    # the suite's own calls against the model
+    orbit = {(x["t"], tuple(x["p"]), x["N"]): x["m"] for x in r.records}
+    nsuite = 0
+    for (ti, p, n, e) in suite:
+        m = orbit.get((ti, tuple(p), n))
+        if m is None:
+            continue
+        nsuite += 1
+        if e["result"] != m:
+            v.violation("while the repository's tests ran: multiplicity(%s, %s) returned %d, the orbit has %d points" %
+                        (e["pos"], e["sgname"] or e["sgno"], e["result"], m), {"sg": [tabs[ti - 1]["no"], tabs[ti - 1]["setting"]], "event": e})
+    cov = {"states": r.distinct, "transitions": r.generated, "traces_validated_against_impl": len(seen) + nsuite,
+           "suite_multiplicity_calls_validated": nsuite,
+           "exhaustive": tier == "thorough",
            "tlc_wall_s": round(r.wall, 1),
            "rule": "case = (table, rational position); quick: 60 seeded grid points + 28 family members per table; "
                    "thorough: full 12^3 grid + families for all 237 tables; each replayed with a lattice shift, by number and by name"}
